@@ -52,6 +52,17 @@ def walk_scope(node: ast.AST):
         stack.extend(scope_children(n))
 
 
+def walk_body(stmts):
+    """Nodes of a function body that belong to the function's own scope: a
+    nested def/class statement contributes only its own node (decorators and
+    defaults excluded for simplicity)."""
+    for s in stmts:
+        if isinstance(s, (ast.FunctionDef, ast.AsyncFunctionDef, ast.ClassDef)):
+            yield s
+        else:
+            yield from walk_scope(s)
+
+
 def comp_bound_names(node: ast.AST) -> set[str]:
     out: set[str] = set()
     if isinstance(node, (ast.ListComp, ast.SetComp, ast.GeneratorExp, ast.DictComp)):
